@@ -49,6 +49,9 @@ def enc_cfg(cfg):
     for k in ("obsfield", "fcstfield"):
         if cfg.get(k) is not None:
             parts.append("%s=%s" % (k, cfg[k]))
+    if cfg.get("T") is not None:
+        # -T pre-aggregation: (hours, aggregator name, "leadtime" | "time") = dim_agg_length / _method / _axis of Data
+        parts.append("T=%s:%s:%s" % (xr(cfg["T"][0]), cfg["T"][1], cfg["T"][2]))
     return ";".join(parts) if parts else "-"
 
 
@@ -74,6 +77,9 @@ def dec_op(op):
                 cfg["div"] = v == "1"
             elif k in ("obsfield", "fcstfield"):
                 cfg[k] = v
+            elif k == "T":
+                h, agg, axis = v.split(":")
+                cfg["T"] = (from_xr(h), agg, axis)
     inputs = []
     for s in a[2].split("#"):
         ts, ls, xs, fs = s.split("|")
@@ -188,6 +194,12 @@ def build_data(ds):
         kw["obs_field"] = field_obj(cfg["obsfield"])
     if cfg.get("fcstfield") is not None:
         kw["fcst_field"] = field_obj(cfg["fcstfield"])
+    if cfg.get("T") is not None:
+        import verif.aggregator
+        import verif.axis
+        kw["dim_agg_length"] = cfg["T"][0]
+        kw["dim_agg_method"] = verif.aggregator.get(cfg["T"][1])
+        kw["dim_agg_axis"] = verif.axis.get(cfg["T"][2])
     given = list(ins)
     data = verif.data.Data(ins, **kw)
     # Data() must leave the list it was handed as it was (the driver and API users build several Data objects from
@@ -957,6 +969,12 @@ def impl_hist(op):
             out += [I._other[n] for n in sorted(getattr(I, "_other", {}))]
             return [np.array(a, float) for a in out if a is not None]
         snapshot = [[a.copy() for a in arrays_of(I)] for I in data._inputs]
+        # the array OBJECTS of the inputs (incl. the climatology), guarded as they are (shape, values): with -T on the
+        # loader hands them to the pre-aggregation / the aggregators, with -T off it caches views of them
+        from common import Unchanged
+        guard = Unchanged(*[a for I in data._inputs for a in
+                            [getattr(I, n, None) for n in ("obs", "fcst", "pit", "threshold_scores", "quantile_scores", "ensemble")]
+                            + [getattr(I, "_other", {})[n] for n in sorted(getattr(I, "_other", {}))]])
         out, returned, flags = [], [], []
         for k, r in enumerate(reqs):
             f, i, ax, idx = r
@@ -984,6 +1002,8 @@ def impl_hist(op):
             for x, y in zip(a, b):
                 if not np.array_equal(x, y, equal_nan=True):
                     flags.append("INPUTMUT")
+        if not guard.ok():
+            flags.append("INPUTMUT")
         return " | ".join(out + sorted(set(flags)))
 
 
